@@ -403,6 +403,28 @@ pub fn scenarios(tier: Tier) -> Vec<Scenario> {
                 seed: vec![Ev::Register(1), Ev::MineP(MineSel::Txs(vec![TxName::D(1)])), Ev::External(TxName::P(1)), Ev::Mine(MineSel::Mempool)],
                 ops: vec![SOp::Poll, SOp::Add { user: 1, disp: 1, blob: Blob::Valid }],
             },
+            Scenario {
+                // the user renews while the block that outdates them is being processed
+                name: "purge-vs-renewal".into(),
+                cfg: TowerCfg { slots: 3, duration: 1, grace: 1, txindex: false },
+                seed: vec![Ev::Register(1), add(1, 1, Blob::Valid), Ev::MineP(MineSel::Empty), Ev::Mine(MineSel::Empty)],
+                ops: vec![SOp::Poll, SOp::Register(1)],
+            },
+            Scenario {
+                // a held appointment is replaced by one the node refuses (and is therefore dropped) while the block with its
+                // dispute is being processed
+                name: "refused-update-while-dispute-block-is-processed".into(),
+                cfg,
+                seed: vec![Ev::Register(1), add(1, 1, Blob::Valid), mine(vec![TxName::D(1)])],
+                ops: vec![SOp::Poll, SOp::Add { user: 1, disp: 1, blob: Blob::Bad }],
+            },
+            Scenario {
+                // a read of the subscription while a reorg takes the tower below the height the user registered at
+                name: "reorg-below-registration-height-vs-info".into(),
+                cfg,
+                seed: vec![Ev::MineP(MineSel::Empty), Ev::Register(1), Ev::Reorg { depth: 1, how: Replacement::Same }],
+                ops: vec![SOp::Poll, SOp::Info(1)],
+            },
             // reads of the subscription next to everything that writes it
             Scenario {
                 name: "info-vs-renewal".into(),
